@@ -68,6 +68,17 @@ def run(tier, seed):
         other = corpus + [x for x in crafted if x['src'].endswith('empty_source_vs_edit')][:n_other] + [x for x in gen if K.has_text_conflict(x)][:n_other]
         for mode in ('diff3', 'diff', 'none'):
             for t in other: tasks.append((t, cfgs, mode))
+        # ---- the process-locale leg (drawn last of all): non-ASCII text where it reaches the text-merge helper x tool
+        # availability x locale / stream / file-name encoding of the process ('git@C' = tool mode git under LC_ALL=C without UTF-8 mode)
+        loc_triples = K.locale_text_triples(r, 6 if tier == 'quick' else 150, gennb, quick=(tier == 'quick'))
+        loc_cfgs = K.locale_configs(cfgs, r)
+        loc_modes = K.locale_modes(quick=(tier == 'quick'))
+        locales = K.check_locales(sb)
+        for loc, seen in locales.items():
+            if not K.locale_exercised(loc, seen):
+                chk.notes.append('locale sandbox %s gives %r: that kind of process is not exercised on this machine' % (loc, seen))
+        for mode in loc_modes:
+            for t in loc_triples: tasks.append((t, loc_cfgs, mode))
         results = K.run_merge_tasks(sb, tasks)
         # ---- judge
         evals = 0; nontrivial = set(); hist = {}; fail_cases = {}
@@ -89,16 +100,21 @@ def run(tier, seed):
             t, cfg, mode, detail = min(lst, key=lambda x: len(pyspec.canon([x[0]['b'], x[0]['l'], x[0]['r']])))
             small = K.shrink_triple(sb, t, cfg, mode, sig, budget=40 if tier == 'quick' else 120)
             case = {'base': small['b'], 'local': small['l'], 'remote': small['r'], 'config': cfg, 'tools': mode,
-                    'failing_configs_this_run': len(set(json.dumps(x[1]) for x in lst)), 'failing_cases_this_run': len(lst)}
+                    'failing_configs_this_run': len(set(json.dumps(x[1]) for x in lst)), 'failing_cases_this_run': len(lst),
+                    'failing_tool_modes_this_run': sorted(set(x[2] for x in lst))}
             chk.violation(sig, case, detail)
         chk.cov.update({
             'evaluations': evals, 'distinct_nontrivial': len(nontrivial),
             'rule': 'one evaluation = one merge_notebooks call (triple x configuration x tool availability). Triples: built-in corpus, the repository fixture triples, '
                     'gennb.gen_triple with forced colliding edits (delete vs edit, insert next to edited/deleted, both edit source/outputs/metadata/attachments, similar and dissimilar concurrent inserts; minors 0-5); crafted families incl. a metadata conflict whose lifted decisions share a sub-key while a later-applied change exists. '
+                    'Process-locale leg: non-ASCII text (latin-1, other BMP, CJK, astral, combining, non-ASCII blanks) in cell sources both sides edit (disjoint lines, same line, both append, delete vs edit) and in similar cells both insert, '
+                    'placed in an untouched line / one side\'s edit / both / everywhere, merged under the configurations that send source conflicts to the text-merge helper (+ controls), '
+                    'under tool availability x process locale (UTF-8; LC_ALL=C and POSIX with PYTHONUTF8=0 PYTHONCOERCECLOCALE=0; C with UTF-8 standard streams; non-ASCII temp directory under C and UTF-8). '
                     'Configurations: the full product of --merge-strategy x --input-strategy x --output-strategy x --no-ignore-transients read from the real parser (%d) + the web tool. '
                     'non-trivial = (triple, tool mode) pairs, distinct by canonical JSON, for which at least one configuration produced a decision' % (len(cfgs) - 1),
             'configurations': len(cfgs), 'triples_full_product': len(full), 'triples_few_configs': len(few), 'few_configs': len(few_cfgs),
             'triples_other_tool_modes': len(other), 'tool_modes': tools,
+            'triples_locale_leg': len(loc_triples), 'locale_leg_configs': len(loc_cfgs), 'locale_leg_modes': loc_modes, 'process_locales': locales,
             'input_distribution': hist, 'traces_validated_against_impl': t1, 'model_impl_mismatches': t1_bad,
             'exhaustive': False, 'configuration_space_exhaustive': True,
             'partial': 'merge_total is proved only for the strategy-dispatch layer (finite table theorems + tryresolve/generic resolver lemmas); chunking, the 20-arm list switch and the inline family are explored on the implementation only',
